@@ -35,6 +35,9 @@ func agentLifeCmd(args []string) int {
 	emit := func(e rig.Ev) { enc.Encode(e); n++ }
 	if *mode == "kill" {
 		err = rig.AgentKillSweep(*bin, base, *every, emit)
+		if err == nil {
+			err = rig.TruthRuns(*bin, base, emit)
+		}
 	} else {
 		err = rig.SecondStartSweep(*bin, base, *every, emit)
 	}
